@@ -5,6 +5,8 @@ Open Scope Z_scope.
 
 Definition apply_seek_sites : list (Z -> Z -> Z -> Z -> Z) :=
   [fun cached orig newoff len => orig; fun cached orig newoff len => newoff; fun cached orig newoff len => 0; fun cached orig newoff len => (len + 0); fun cached orig newoff len => 0; fun cached orig newoff len => (len + 0)].
+Definition apply_body_test (newoff_is_none destructive : bool) : bool :=
+  (newoff_is_none || (negb destructive)).
 
 Definition getitem_tfld_args : list (Z -> Z * option Z * bool) :=
   [fun offset => (offset, None, false); fun offset => ((offset + 1), None, true)].
